@@ -88,6 +88,11 @@ def rows(tier):
     add('chain-f2-stopcfg', [('P1', CHAIN)], 2,
         ops=[TRIG('2/a'), TRIG('2/b'), TRIG('1/b')], budget=1,
         scheduling={'stop after cycle point': 1}, stop=1)
+    # a future trigger extends the runahead limit: it must still be capped
+    # at the stop point (whatever the order in which jobs finish)
+    add('future-f4-ra1-stopcfg3', FUTURE, 4,
+        scheduling={'stop after cycle point': 3, 'runahead limit': 'P1'},
+        stop=3)
     add('chain-f2-stopcmd', [('P1', CHAIN)], 2, ops=[STOP(1)], budget=1)
     add('andprev-f2-stopcmd', ANDPREV, 2, ops=[STOP(1)], budget=1)
     add('queue-f2-stopcmd', [('P1', [N('a')])], 2, ops=[STOP(1)], budget=1,
